@@ -177,6 +177,9 @@ def run(ctx):
         for _ in range(1200 if ctx.quick() else 20000):
             yield (gen_malformed(rng, wf2, md), None, "stream15")
         if ctx.tier == "thorough":
+            dist["exhaustive-scope"] = {"alphabet": "a 0 1 9 [ ] - ,", "lengths": "0..6",
+                                        "strings": sum(8 ** k for k in range(7)),
+                                        "judged": "those the spec accepts (counted in `exhaustive`)"}
             for s in exhaustive(b"a019[]-,", 6):
                 yield (s, None, "exhaustive")
 
